@@ -11,6 +11,14 @@
 // With -DVK_LIBFUZZER the same vk_run_case is exposed as LLVMFuzzerTestOneInput.
 #include "kit/case.hpp"
 
+#if __has_include(<unifex/config.hpp>)
+#include <unifex/config.hpp>
+#if !UNIFEX_NO_ASYNC_STACKS
+#include <unifex/tracing/async_stack.hpp>
+#define VK_ASYNC_STACKS 1
+#endif
+#endif
+
 #include <rapidcheck.h>
 
 #include <algorithm>
@@ -22,6 +30,7 @@
 #include <sched.h>
 #include <unistd.h>
 #include <unordered_set>
+#include <unordered_map>
 
 extern "C" void __sanitizer_set_death_callback(void (*)(void)) __attribute__((weak));
 extern "C" int __lsan_do_recoverable_leak_check() __attribute__((weak));
@@ -73,6 +82,7 @@ void Ctx::tr(const char* fmt, ...) {
 __attribute__((weak)) void vk_harness_init() {}
 __attribute__((weak)) const char* vk_nontrivial_rule() { return "(harness did not state a rule)"; }
 
+bool g_replay_mode_flag();
 namespace {
 
 using Bytes = std::vector<uint8_t>;
@@ -187,6 +197,50 @@ void on_signal(int sig) {
 }
 
 // Runs one case.  Returns true when the case passed (or was discarded).
+// ---- C20: configuration differential.  --digest-out=FILE appends "hex(bytes)<TAB>digest" per case; --expect-digests=FILE loads
+// such a table written by the reference configuration (same seed => same generated bytes) and turns a differing digest into a
+// violation; for bytes that are not in the table (minimisation, replay) the reference binary named by --ref-binary is run on them.
+static std::unordered_map<std::string, std::string> g_expect; static bool g_expect_loaded = false; static FILE* g_digest_out = nullptr;
+static uint64_t g_compared = 0;
+static void load_expect(const std::string& path) {
+  g_expect_loaded = true;
+  FILE* f = fopen(path.c_str(), "r"); if (!f) return;
+  char* line = nullptr; size_t cap = 0; ssize_t n;
+  while ((n = getline(&line, &cap, f)) > 0) { std::string l(line, (size_t)n); while (!l.empty() && (l.back() == '\n' || l.back() == '\r')) l.pop_back(); auto t = l.find('\t'); if (t != std::string::npos) g_expect[l.substr(0, t)] = l.substr(t + 1); }
+  free(line); fclose(f);
+}
+static bool ref_digest_by_spawn(const Bytes& b, std::string& out) {
+  vk::Ctx& cx = vk::ctx();
+  std::string bin = cx.arg("ref-binary"); if (bin.empty()) return false;
+  std::string tmp = cx.workdir + "/ref_case_" + std::to_string((long)getpid()) + ".bin";
+  write_file(tmp, b.data(), b.size());
+  std::string cmd = "ASAN_OPTIONS=detect_leaks=0 " + bin + " --prop " + (cx.prop.empty() ? std::string("C20") : cx.prop) + " --print-digest=1 --out " + cx.workdir;
+  for (auto& kv : cx.args) if (kv.first.rfind("ref-", 0) != 0 && kv.first != "expect-digests" && kv.first != "digest-out" && kv.first != "print-digest") cmd += " '--" + kv.first + "=" + kv.second + "'";
+  cmd += " --replay " + tmp + " 2>/dev/null";
+  FILE* p = popen(cmd.c_str(), "r"); if (!p) return false;
+  char buf[8192]; bool got = false;
+  while (fgets(buf, sizeof buf, p)) { if (strncmp(buf, "digest: ", 8) == 0) { out = buf + 8; while (!out.empty() && out.back() == '\n') out.pop_back(); got = true; } }
+  pclose(p); unlink(tmp.c_str());
+  return got;
+}
+static void differential(const Bytes& b) {
+  vk::Ctx& cx = vk::ctx();
+  if (cx.failed || cx.discard) return;
+  if (g_digest_out) { fprintf(g_digest_out, "%s\t%s\n", hex(b).c_str(), cx.digest.c_str()); }
+  if (!g_expect_loaded && cx.arg("ref-binary").empty()) return;
+  std::string want; bool have = false;
+  auto it = g_expect.find(hex(b));
+  if (it != g_expect.end()) { want = it->second; have = true; }
+  else if (g_replay_mode_flag()) have = ref_digest_by_spawn(b, want);
+  if (!have) return;
+  g_compared++; cx.label("compared-with-reference-configuration");
+  if (want != cx.digest) {
+    size_t i = 0; while (i < want.size() && i < cx.digest.size() && want[i] == cx.digest[i]) ++i;
+    size_t from = i > 40 ? i - 40 : 0;
+    cx.fail("C20", "config_differential", "observable behaviour differs from the reference configuration (%s) at digest offset %zu: here [...%s] reference [...%s]", cx.arg("ref-name", "?").c_str(), i, cx.digest.substr(from, 160).c_str(), want.substr(from, 160).c_str());
+  }
+}
+
 bool run_one(const Bytes& b, bool count) {
   vk::Ctx& cx = vk::ctx();
   cx.reset_case();
@@ -196,6 +250,12 @@ bool run_one(const Bytes& b, bool count) {
   }
   vk::Choice c(b.data(), b.size());
   vk_run_case(c);
+#ifdef VK_ASYNC_STACKS
+  // C20: with tracing on, every async stack root an operation installed on this thread has been removed again once the case is over
+  if (!cx.failed && unifex::tryGetCurrentAsyncStackRoot() != nullptr)
+    cx.fail("C20", "async_stack_root_leaked", "after the case has completed and all of its operations have been destroyed, the driver thread still has a current AsyncStackRoot");
+#endif
+  differential(b);
   if (g_leak_every > 0 && (++g_case_no % g_leak_every) == 0 && __lsan_do_recoverable_leak_check && !cx.failed) {
     if (__lsan_do_recoverable_leak_check() != 0)
       cx.fail("C02", "heap_leak", "LeakSanitizer: heap memory allocated during this case%s was never freed", g_leak_every > 1 ? " (or one of the few before it)" : "");
@@ -259,12 +319,14 @@ Bytes read_bytes(const char* path) {
 }  // namespace
 
 static bool g_replay_mode = false;
+bool g_replay_mode_flag() { return g_replay_mode; }
 
 static void print_replay_report(bool ok) {
   vk::Ctx& cx = vk::ctx();
   printf("harness: %s\nprop: %s\ncase: %s\n", vk_harness_name(), cx.prop.c_str(), cx.desc.c_str());
   for (auto& l : cx.trace) printf("  | %s\n", l.c_str());
   if (cx.discard) printf("discarded: %s\n", cx.discard_why.c_str());
+  if (cx.argi("print-digest", 0)) printf("digest: %s\n", cx.digest.c_str());
   if (cx.failed) printf("violation: %s/%s: %s\n", cx.fail_prop.c_str(), cx.fail_sig.c_str(), cx.fail_msg.c_str());
   printf("result: %s\n", ok ? "pass" : "FAIL");
   fflush(stdout);
@@ -340,6 +402,8 @@ int main(int argc, char** argv) {
   signal(SIGABRT, on_signal);
   signal(SIGPIPE, SIG_IGN);
   vk_harness_init();
+  if (!cx.arg("digest-out").empty()) g_digest_out = fopen(cx.arg("digest-out").c_str(), "a");
+  if (!cx.arg("expect-digests").empty()) load_expect(cx.arg("expect-digests"));
 
   if (replay) {
     Bytes b = read_bytes(replay);
@@ -397,6 +461,7 @@ int main(int argc, char** argv) {
     return 3;
   }
   g_curfd = -1;
+  if (g_digest_out) { fclose(g_digest_out); g_digest_out = nullptr; }
   capture_sample_traces();
   flush_stats();
   return 0;
